@@ -193,7 +193,7 @@ async fn run_async(ctx: &mut Ctx, opts: Opts) {
         if opts.malicious {
             for _ in 0..ctx.tape.choose(4) {
                 let at = ctx.tape.choose(load_ms as u32) as u64;
-                w.schedule(at, Ev::Custom(X::Malicious { kind: ctx.tape.choose(4), victim: ctx.tape.choose((np + 1) as u32) as usize }));
+                w.schedule(at, Ev::Custom(X::Malicious { kind: ctx.tape.choose(6), victim: ctx.tape.choose((np + 1) as u32) as usize }));
             }
         }
     }
@@ -759,6 +759,28 @@ fn malicious(ctx: &mut Ctx, w: &mut HWorld<X>, kind: u32, victim: usize, touched
                 ctx.fault("forged_whoareyou");
                 ctx.ev(format!("t={} MALICIOUS WHOAREYOU at n{victim} from {}", now_ms(), r.dst));
                 w.deliver(victim, r.dst, bytes, Origin::Injected { tag: "forged-whoareyou" });
+                touched.insert(victim);
+            }
+        }
+        4 | 5 => {
+            // WHOAREYOU echoing the nonce of the victim's last request packet (or handshake), but from another
+            // endpoint than the one the victim dialled: the peer's IP on another port, or a third party's address
+            if let Some(i) = pick(w, kind == 5) {
+                let r = w.wire[i].clone();
+                let d = r.dec.unwrap();
+                let mut idn = [0u8; 16];
+                idn.copy_from_slice(&rand_bytes(ctx, 16));
+                let bytes = toolkit::encode_packet(9, d.message_nonce, PacketKind::WhoAreYou { id_nonce: idn, enr_seq: 0 }, vec![], &vid);
+                let src = if ctx.tape.choose(2) == 0 {
+                    let mut a = r.dst;
+                    a.set_port(r.dst.port().wrapping_add(5));
+                    a
+                } else {
+                    w.attacker_addrs[0]
+                };
+                ctx.fault("whoareyou_from_other_endpoint");
+                ctx.ev(format!("t={} MALICIOUS WHOAREYOU at n{victim} for a packet sent to {} from {src}", now_ms(), r.dst));
+                w.deliver(victim, src, bytes, Origin::Injected { tag: "whoareyou-other-endpoint" });
                 touched.insert(victim);
             }
         }
